@@ -130,6 +130,9 @@ class Epson(protocol_base.IrProtocolBase):
         except ValueError:
             raise LeadOutError
 
+        if len(code) < 2:
+            raise NotEnoughBitsError
+
         if (
             self._match(mark, self._lead_out[0]) and
             self._match(space, self._lead_out[1])
